@@ -1,6 +1,6 @@
 ENGINES = [
  {"name": "procsim (E1)", "path": "/verif/shim/simos_preload.c + /verif/sim/src/exec.rs",
-  "serves_properties": ["C12", "C16", "C17", "C19"],
+  "serves_properties": ["C12", "C16", "C17", "C18", "C19"],
   "kind_free_text": "the real hdwallet binary, one OS process per simulated command, against a simulated libc boundary (LD_PRELOAD): getentropy, read(0), read(input files), write(1) execute an explicit seeded plan; no source hook"},
  {"name": "threadsim (E2)", "path": "/verif/sim/src/bin/threadsim",
   "serves_properties": ["C12", "C17", "C18"],
@@ -13,6 +13,19 @@ NOTES = ("Technique family: deterministic simulation with fault injection. One i
 
 # (id, level category, level text, design ref, level note, technique, engine)
 CHECKS = [
+ ("C16", "exploration",
+  "Seeded exploration on the real binary: every account command is run as a session of 2..8 simulated processes — a base execution (flags, input file) and "
+  "variants with the options through MNEMONIC/PASSWORD/ACCOUNT_INDEX/HD_PATH (all or a seeded mix), input from stdin in one piece, from stdin or the file under a "
+  "benign delivery plan (chunks down to 1 byte, EINTR), under one hard EIO, and stdout under short writes/EINTR. Required: all benign variants byte-identical to "
+  "the base; a hard read error => failure with empty stdout; both selectors in any flag/env mix => usage error. The base output is compared with an independent "
+  "reference wallet (EIP-55 address, 0x secret, uncompressed public key; signatures must recover to the reference address over the digest the real matching `hash` "
+  "command prints; `hash data` = Keccak-256; digest = keccak(0x1901||domainSeparator||--message-hash output)). Sampling, not proof.",
+  "DESIGN.md §5.4",
+  "Decided by simulation: channel/delivery/environment independence and no output after a read error. Sampled by the workload (input generation, not simulation): "
+  "the reference-wallet comparison over mnemonics, passphrases, indices 0..2^31-1 and paths. Transaction/typed-data inputs are well-formed documents only (C06/C08 "
+  "not claimed); signature determinism is C05. Trusted: RustCrypto primitives in the reference wallet, unicode-normalization for NFKD, the library's domain_separator.",
+  "deterministic simulation: seeded fault-injecting stream delivery and environment/argv configuration of real processes, session-history oracle against a reference wallet",
+  "procsim (E1)"),
  ("C12", "exploration",
   "Fault enumeration on the real binary plus seeded exploration under the simulated scheduler. Enumerated every run (E1): `new -n L` for all L in 0..=40 x 19 "
   "entropy-source responses (degenerate byte patterns, random values, EIO, ENOSYS, EIO after scribbling the buffer), and single-searcher vanity searches "
@@ -65,6 +78,4 @@ CHECKS = [
   "procsim (E1)"),
 ]
 
-PENDING = {
- "C16": "claimed in DESIGN.md §5.4; check under construction in this round (will move to checks)",
-}
+PENDING = {}
